@@ -732,6 +732,14 @@ def _walk_cases(ctx, pools):
     out.append({"fam": "sign", "cfg": cfg, "xs": pr,
                 "shape": [len(pr), 1] if k % 2 else [len(pr)], "phases": [0],
                 "train": False, "probe": True})
+  # binary(use_stochastic_rounding) in training on all-zero and all-denormal
+  # channels next to a normal one (region of the repaired C08-KF3/KF3b)
+  zcols = [[0.0, 0.0, 0.0, 0.0], [1e-40, 0.0, -1.401298464324817e-45, 1e-42],
+           [0.75, -0.004, 0.2, -1.5]]
+  for k, cfg in enumerate([c for c in pools["sign"] if c["cls"] == "binary"]):
+    xs_ = [float(np.float32(zcols[ch][r])) for r in range(4) for ch in range(3)]
+    out.append({"fam": "sign", "cfg": cfg, "xs": xs_, "shape": [4, 3],
+                "phases": SCHEDULES[k % len(SCHEDULES)], "zero_channel": True})
   # wide formats: exact codes with large indices, drawn n times each
   for k, cfg in enumerate(pools["wide"]):
     out.append({"fam": "fixed", "cfg": cfg, "xs": S.wide_walk(cfg),
